@@ -79,3 +79,19 @@ def renderOpt {β} (f : β → String) : Option β → String
 def renderBool (b : Bool) : String := if b then "1" else "0"
 
 end SpiceEv
+
+namespace SpiceEv
+/-- a driver command: the tokens after the command name ↦ one output line (none = bad arguments) -/
+abbrev Handler := List String → Option String
+
+def runP (p : P String) : Handler := fun toks =>
+  match (p <* P.eof).run toks with
+  | some (out, _) => some out
+  | none => none
+
+/-- dispatch on the number-type token: `q` = Rat, `f` = Float -/
+def byNumType (q : P String) (f : P String) : Handler
+  | "q" :: rest => runP q rest
+  | "f" :: rest => runP f rest
+  | _ => none
+end SpiceEv
